@@ -175,6 +175,11 @@ def gen_case(rng, malformed=False):
         refs = [k for k in placed if rng.random() < 0.5] \
             if rng.random() < 0.15 else []
         geom = gen_tree(rng, surf_ids, refs, allow_compl=do_trcl)
+        if refs and rng.random() < 0.4:
+            # the same cell referenced twice from one geometry (counts twice
+            # in the inlining score)
+            r = rng.choice(refs)
+            geom = ('*', (':', geom, ('ref', r)), ('ref', r))
         orig = []
         if rng.random() < 0.08:
             # one or two provenance pairs, all four numbers distinct, so that
